@@ -100,7 +100,7 @@ def gen_behaviour(rng, cfg, nops):
             lines.append("resize %d %d" % (ne, nre))
             cur_e, cur_re = ne, nre
         else:
-            lines.append("cmp %d" % rng.choice([-1, cur_e, pos(), pos()]))
+            lines.append("cmp %d" % rng.choice([-1, -2, cur_e, pos(), pos()]))
     return lines
 
 
